@@ -147,6 +147,8 @@ Inductive op :=
 | ORTable (side : N) (r : nat) | ORJoinTable (r : nat)
 | OSql (o : nat) | ODbml (o : nat) | ODump | OGetNote (o : nat) | OEq (a b : nat) | OColDatabase (c : nat)
 | OParse (route : N) (allow : bool) (sqlr dbmlr : nat) (text : pystr)
+| OReparse (o : nat) (allow : bool)          (* PyDBML(obj.dbml, allow_properties=allow) *)
+| ODictSet (o : nat) (attr : N) (k v : pystr)   (* getattr(obj, attr)[k] = v : in-place mutation of properties / items *)
 | OBad.
 
 (* ------------------------------------------------------------------ decoding *)
@@ -224,6 +226,8 @@ Definition dec_op (x : sx) : op :=
       | 83, [o] => Some OGetNote <*> dec_nat o
       | 84, [a; b] => Some OEq <*> dec_nat a <*> dec_nat b
       | 85, [c] => Some OColDatabase <*> dec_nat c
+      | 91, [o; al] => Some OReparse <*> dec_nat o <*> dec_bool al
+      | 61, [o; a; k; v] => Some ODictSet <*> dec_nat o <*> dec_N a <*> dec_str k <*> dec_str v
       | 90, [rt; al; sr; dr; tx] => Some OParse <*> dec_N rt <*> dec_bool al <*> dec_nat sr <*> dec_nat dr <*> dec_str tx
       | _, _ => None
       end%N
@@ -745,6 +749,26 @@ Definition exec_op (rs : list rdef) (s : st) (o : op) : st * outcome :=
                | _ => pydbml_new fs SOther allow sqlr dbmlr
                end%N in
       run_M s m OutObj
+  | ODictSet ob attr k v =>
+      match slot s ob with
+      | Some o' =>
+          match nth_error (st_heap s) o' with
+          | Some (OTable x) => if N.eqb attr 8 then run_M s (upd_table o' (fun x => mkTable (t_database x) (t_name x) (t_schema x) (t_columns x) (t_indexes x) (t_alias x) (t_note x) (t_header_color x) (t_comment x) (t_abstract x) (dict_set k v (t_properties x)))) (fun _ => OutOk) else (s, OutSkip)
+          | Some (OColumn x) => if N.eqb attr 10 then run_M s (upd_column o' (fun x => mkColumn (c_name x) (c_type x) (c_unique x) (c_not_null x) (c_pk x) (c_autoinc x) (c_comment x) (c_note x) (dict_set k v (c_properties x)) (c_default x) (c_table x))) (fun _ => OutOk) else (s, OutSkip)
+          | Some (OProject x) => if N.eqb attr 2 then run_M s (store o' (OProject (mkProject (p_database x) (p_name x) (dict_set k v (p_items x)) (p_note x) (p_comment x)))) (fun _ => OutOk) else (s, OutSkip)
+          | _ => (s, OutSkip)
+          end
+      | None => (s, OutSkip)
+      end
+  | OReparse ob allow =>
+      match slot s ob with
+      | Some o' =>
+          match obj_dbml rs (st_heap s) o' with
+          | Ok t => run_M s (pydbml_new (fun _ => None) (SStr t) allow 0 1) OutObj
+          | Raise e => (s, OutRaise e)
+          end
+      | None => (s, OutSkip)
+      end
   | OBad => (s, OutSkip)
   end.
 
